@@ -374,6 +374,7 @@ func run(c *evid.Case) {
 			c.Journal("case %d: fault k=%d/%d %s at %s %s", c.Index, k, ref.k, mode, op.Kind, op.Detail)
 			r := execute(env, w.Owners, nums, blocks, logs, k, mode)
 			c.Count("fault_runs", 1)
+			c.AddEvaluations(1)
 			c.Count("fault_runs_"+mode.String(), 1)
 			c.Count("points_"+op.Kind, 1)
 			c.Count("restarts", int64(r.restarts))
